@@ -2818,8 +2818,11 @@ class AggregateBase(UnitsManaged, Saveable, OpenSystem):
                     re = numpy.zeros(Ndim-start, dtype=numpy.float64)
                     # we need to subtract reorganization energies
                     for i in range(n1ex):
+                        # all vibrational levels of an excited site share
+                        # the reorganization energy of that site
                         re[i] = \
-                        self.sbi.get_reorganization_energy(i)
+                        self.sbi.get_reorganization_energy(
+                                                self.elinds[start+i]-1)
                 else:
                     HH = relaxation_hamiltonian
                     Ndim = HH.dim
